@@ -3,8 +3,8 @@
 ``iteration.Engine.execute`` is verified arm by arm against the row semantics.  The RowIterable classes it
 instantiates are covered by contracts/rowiter.py: constructors, ``__iter__`` bodies (generators as loops with a
 ghost output sequence) and the conversion methods are proved from the current source, which yields the class
-lemmas ``content(o) == F(attributes of o)`` used here.  The Sort arm (groupby + several stable list.sort passes,
-inline in execute) is still a summary covered by the bounded stand-in replay/bounded_rowiter.py.
+lemmas ``content(o) == F(attributes of o)`` used here.  The converted callables are proved in contracts/itconv.py and
+the Sort arm (groupby + one stable list.sort per group) is executed for real with a loop invariant (contracts/sortarm.py).
 """
 from __future__ import annotations
 
@@ -54,48 +54,19 @@ def _builtin(ex, name, args, kwargs, st, node):
     return None
 
 
-def _case_body(ex, stmt, case, st):
-    """The Sort arm of iteration.Engine.execute (list(), itertools.groupby, several list.sort passes) is outside the
-    executor's subset: it is replaced by its summary 'a RowSequence holding the stable multi-key sort of the target rows'.
-    The summary is an ASSUMPTION of this check, covered by the bounded native stand-in replay/bounded_rowiter.py."""
-    fi = ex.frame.fi
-    if fi is None or fi.key != "iteration._engine:Engine.execute":
-        return None
-    if not (isinstance(case.pattern, ast.MatchClass) and ast.unparse(case.pattern.cls) == "Sort"):
-        return None
-    from pyvc.state import Res
-
-    terms, rows = st.env.get("terms"), st.env.get("target_rows")
-    if terms is None or rows is None:
-        return None
-    ci = ex.repo.cls("RowSequence")
-    it = SV(TRefT(ci), smt.fresh_const("sorted_rows", smt.Ref), fresh=True)
-    st.assume(it.z != smt.NONE, smt.typ(it.z) == ex.types.cid(ci), V.content(it.z) == V.s_sort(terms.z, V.content(rows.z)))
-    # list(target_rows) iterates its argument: the ghost iteration counters (C18) change in an unspecified way
-    st.heap = dict(st.heap)
-    st.heap["RowIterable.iterations"] = z3.Const(smt.fresh_name("H_RowIterable.iterations"), z3.ArraySort(smt.Ref, smt.IntS))
-    ex.assumed_contracts_used.add("summary: Sort arm of iteration.Engine.execute == stable multi-key sort (bounded stand-in replay/bounded_rowiter.py)")
-    return [Res("return", it, st, node=case.body[-1])]
-
-
 def register(reg):
     reg.load("c20")
     reg.load("rowiter")  # the RowIterable classes: class lemmas proved from their bodies
-    reg.add_hook("case_body", _case_body)
+    reg.load("itconv")  # convert_column_expression / convert_column_container / convert_predicate: proved closures
+    if _portable_tree_axioms not in reg.global_axioms:
+        reg.global_axioms.append(_portable_tree_axioms)
+    reg.load("sortarm")  # the Sort arm of execute: groupby + one stable sort per group, by loop invariant
     if _height_axioms not in reg.global_axioms:
         reg.global_axioms.append(_height_axioms)
     reg.add_hook("builtin", _builtin)
     TIt = TRefT(reg_cls(reg, "RowIterable"))
     TCall = TRefT(None)
     P = ("C01", "C10")
-    # ---- converted callables denote the expression (proved for the portable operator set under C12; assumed here)
-    k = reg.contract("iteration._engine:Engine.convert_column_expression", assumed=True, properties=P, result_td=TCall,
-                     note="closure(row) == value of the expression on row: subject of C12")
-    k.ens("denotes-the-expression", lambda c: B(z3.And(c.result.z != smt.NONE, V.denotes_x(c.result.z, c.expression.z))))
-    k = reg.contract("iteration._engine:Engine.convert_predicate", assumed=True, properties=P, result_td=TCall,
-                     note="closure(row) == value of the predicate on row: subject of C12")
-    k.ens("denotes-the-predicate", lambda c: B(z3.And(c.result.z != smt.NONE, V.denotes_p(c.result.z, c.predicate.z))))
-
     # ---- execute
     def arms(c):
         r = c.relation.z
@@ -117,6 +88,8 @@ def register(reg):
 
     k.req("iteration-leaves-carry-their-rows", lambda c: B(leaves_have_payloads(c, payload_heap(c))))
     k.req("relation-columns-truthful", lambda c: B(cols(c, c.relation.z) == V.rcols(V.rows(c.relation.z))))
+    # the property quantifies over expressions / predicates of the portable operator set
+    k.req("expressions-over-the-portable-operator-set", lambda c: B(ptree(c.relation.z)))
     k.ens("yields-exactly-the-rows-of-direct-evaluation", lambda c: B(same_rows(V.content(c.result.z), V.rows(c.relation.z))))
     k.ens("payloads-still-hold-their-relations-rows", lambda c: B(payload_inv(c, payload_heap(c))))
     old_p = lambda c: z3.Select(payload_heap(c, True), c.relation.z)  # noqa: E731
@@ -136,6 +109,29 @@ def register(reg):
           lambda c: B(z3.Implies(z3.And(smt.typ(c.relation.z) == cid(c, "Materialization"), z3.Not(trivial(c))), z3.Select(payload_heap(c), c.relation.z) != smt.NONE)))
     k.raises("EngineError", None)
 
+    # ---- the Sort arm's loop over the groups of same-direction terms, taken from the last group to the first
+    from contracts import sortarm as SA
+    from spec.laws import instance
+
+    def sort_inv(c, kk, env, ts):
+        m = SA.gcount(ts.z)
+        X0 = V.content(env.target_rows.z)
+        return B(z3.And(0 <= kk.z, kk.z <= m, env.rows_list.z == V.s_sort(V.tsuffix(ts.z, SA.gstart(ts.z, m - kk.z)), X0)))
+
+    def sort_lemmas(c, kk, j, env, ts):
+        """Facts about the group handled in this iteration (each proved as its own obligation) and the law instances."""
+        a, b = SA.gstart(ts.z, j.z), SA.gstart(ts.z, j.z + 1)
+        cs, d = env.callables.z, env.ascending.z
+        X0 = V.content(env.target_rows.z)
+        hints = [("group-callables-denote-the-group-terms", V.den_terms(cs, ts.z, a, b)),
+                 ("group-terms-share-the-direction", V.same_dir(ts.z, a, b, d))]
+        before = V.s_sort(V.tsuffix(ts.z, b), X0)
+        lemmas = [instance("sortc-group", cs, ts.z, a, b, d, before), instance("sort-suffix-split", ts.z, a, b, X0)]
+        return hints, lemmas
+
+    k.inv(0, sort_inv)
+    k.loop_lemmas = {0: sort_lemmas}
+
     def all_key_columns(c, _):
         """F8's witness class is 'the relation has a non-key column'; excluded = every column is a key."""
         t = z3.Const("t", smt.Tag)
@@ -145,7 +141,10 @@ def register(reg):
 
 
 def bounded_extra(repo, reg, tier):
-    """Run the bounded native stand-in for the assumed RowIterable class contracts / Sort arm / converted callables."""
+    """Native cross-check (bounded, NOT part of the proof): the RowIterable classes, the Sort arm and the converted
+    callables against direct evaluation on small inputs.  Since contracts/rowiter.py, itconv.py and sortarm.py these are
+    proved; the cross-check stays as an independent test of the verifier's model of Python (generators, dict
+    comprehensions, list.sort, closures) against CPython."""
     import os
     import subprocess
 
@@ -155,18 +154,51 @@ def bounded_extra(repo, reg, tier):
     env = {**os.environ, "PYTHONPATH": os.path.join(os.environ.get("PYVC_REPO", "/repo"), "python"), "PYTHONDONTWRITEBYTECODE": "1"}
     p = subprocess.run(["/venv/bin/python", "/verif/replay/bounded_rowiter.py", n], capture_output=True, text=True, env=env, timeout=900)
     ok = "NOT-REPRODUCED" in p.stdout
-    r = OblResult("bounded/rowiterable-class-contracts-and-sort-arm", "bounded:replay/bounded_rowiter.py", "bounded-stand-in", "", "bounded",
+    r = OblResult("bounded/native-cross-check-of-the-iteration-engine-model", "bounded:replay/bounded_rowiter.py", "bounded-stand-in", "", "bounded",
                   PROVED if ok else REFUTED, solver="native-enumeration (bounded, not a proof)", reason=(p.stdout + p.stderr).strip()[-600:])
     r.info["bounded"] = True
-    # execution must not write to any pre-existing object (leaf payloads keep denoting the leaf's rows): the frame
-    # obligations of C09, restricted to the iteration engine's modules, are part of this check as well
+    return [r] + frame_obligations_iteration(repo), ["native cross-check of the verifier's model of generators / dict comprehensions / list.sort / closures against CPython "
+                                                     f"(replay/bounded_rowiter.py, sequences up to length {n}, 3 columns, values 0..2; bounded, not part of the proof): " + p.stdout.strip()[-120:]]
+
+
+def frame_obligations_iteration(repo, prefix="C01/"):
+    """Execution must not write to any pre-existing object (leaf payloads keep denoting the leaf's rows): the frame
+    obligations of C09, restricted to the iteration engine's modules."""
     from contracts.persist import frame_obligations
 
     frame = [o for o in frame_obligations(repo) if o.func.startswith("iteration.")]
     for o in frame:
-        o.label = o.label.replace("C09/", "C01/")
-    return [r] + frame, ["RowIterable class contracts, the Sort arm summary and the converted callables are ASSUMED by the deductive part and only bounded-checked natively "
-                 f"(replay/bounded_rowiter.py, sequences up to length {n}, 3 columns, values 0..2): " + p.stdout.strip()[-120:]]
+        o.label = o.label.replace("C09/", prefix)
+    return frame
+
+
+ptree = z3.Function("portable_tree", smt.Ref, smt.BoolS)  # every expression / predicate in the tree is over the portable operator set
+
+
+def _portable_tree_axioms(ex):
+    from contracts.sqlexpr import all_portable, portable
+
+    class _C:
+        pass
+    c = _C()
+    c.ex = ex
+    r, x = z3.Const("r", smt.Ref), z3.Const("x", smt.Ref)
+    t = smt.typ(r)
+    uo, ut = A(c, "UnaryOperationRelation", "operation")(r), A(c, "UnaryOperationRelation", "target")(r)
+    bl, br = A(c, "BinaryOperationRelation", "lhs")(r), A(c, "BinaryOperationRelation", "rhs")(r)
+    mt = A(c, "MarkerRelation", "target")(r)
+    pop = z3.And(z3.Implies(smt.typ(uo) == cid(c, "Calculation"), portable(A(c, "Calculation", "expression")(uo))),
+                 z3.Implies(smt.typ(uo) == cid(c, "Selection"), portable(A(c, "Selection", "predicate")(uo))),
+                 z3.Implies(smt.typ(uo) == cid(c, "Sort"), all_portable(A(c, "Sort", "terms")(uo))))
+
+    def ax(cond, body):
+        return z3.ForAll([r], z3.Implies(cond, ptree(r) == body), patterns=[ptree(r)])
+
+    return [ax(t == cid(c, "LeafRelation"), z3.BoolVal(True)),
+            ax(t == cid(c, "UnaryOperationRelation"), z3.And(pop, ptree(ut))),
+            ax(t == cid(c, "BinaryOperationRelation"), z3.And(ptree(bl), ptree(br))),
+            ax(is_marker(c, r), ptree(mt)),
+            z3.ForAll([x], z3.Implies(smt.typ(x) == cid(c, "SortTerm"), portable(x) == portable(A(c, "SortTerm", "expression")(x))), patterns=[portable(x)])]
 
 
 def _height_axioms(ex):
